@@ -76,8 +76,11 @@ fn engine_turn(prog: &Rc<Prog>, setup: &Setup, path: &[usize], globals: &[String
         let tags = story.get_current_tags().unwrap_or_default();
         let g: Vec<(String, String)> = globals.iter().map(|n| (n.clone(), story.get_variable(n).map(|v| render_vt(&v)).unwrap_or_else(|| "None".into()))).collect();
         let c: Vec<(String, i32)> = counts.iter().map(|n| (n.clone(), story.get_visit_count_at_path_string(n).unwrap_or(-1))).collect();
-        if text.is_empty() && tags.is_empty() {
-            continue; // K0: a turn without text delivers one empty line
+        if text.trim().is_empty() && tags.is_empty() {
+            // K0: a turn without text delivers one empty line; the reference toolchain itself
+            // produces whitespace-only lines in places (calibration: conditional/stopping), and
+            // the repository's own tests skip them, so they are not compared
+            continue;
         }
         lines.push(EngineLine { text, tags, globals: g, counts: c });
     }
@@ -151,11 +154,17 @@ pub fn judge_program(name: &str, ast: &Program, depth: usize) -> Judged {
             return j;
         }
     };
+    judge_with(&prog, ast, depth, true, j)
+}
+
+/// the comparison itself, for a story document that is already loaded (generated programs: this
+/// compiler's output; calibration: the reference compiler's JSON of a hand-transcribed story)
+pub fn judge_with(prog: &Rc<Prog>, ast: &Program, depth: usize, observe_counts: bool, mut j: Judged) -> Judged {
     let c = refint::compile(ast);
     let globals: Vec<String> = ast.globals.iter().map(|g| g.0.clone()).collect();
     let mut counts: Vec<String> = vec![];
     for k in &ast.knots {
-        if !k.is_function {
+        if !k.is_function && observe_counts {
             counts.push(k.name.clone());
             for (s, _) in &k.stitches {
                 counts.push(format!("{}.{s}", k.name));
@@ -199,6 +208,34 @@ pub fn judge_program(name: &str, ast: &Program, depth: usize) -> Judged {
     j
 }
 
+/// Calibration of the reference interpreter against the REFERENCE toolchain: corpus stories
+/// transcribed by hand into the harness AST are run through refint and compared, along every
+/// choice path, with the reference-compiled JSON of the same story played on the engine. A
+/// disagreement means a rule of RULES.md (or a transcription) is wrong: the check then refuses to
+/// judge anything (machinery error), because its verdicts would not be worth believing.
+pub fn calibrate() -> (usize, u64, Vec<String>) {
+    let mut failures = vec![];
+    let mut paths = 0;
+    let cal: Vec<(&'static str, Program)> = inkgen::calibration().into_iter().filter(|(rel, _)| !rel.starts_with("nojson:")).collect();
+    for (rel, ast) in &cal {
+        let file = format!("/repo/conformance-tests/inkfiles/{rel}");
+        let Ok(text) = std::fs::read_to_string(&file) else {
+            failures.push(format!("{rel}: cannot read {file}"));
+            continue;
+        };
+        let prog = Rc::new(Prog::from_json(rel, text.trim_start_matches('\u{feff}')));
+        let j = judge_with(&prog, ast, 6, false, Judged { paths: 0, no_verdict: None, violation: None, transcript_hash: 0, max_choices: 0 });
+        paths += j.paths;
+        if let Some(nv) = j.no_verdict {
+            failures.push(format!("{rel}: no verdict: {nv}"));
+        }
+        if let Some((aspect, what, path)) = j.violation {
+            failures.push(format!("{rel}: {aspect}: {what} at choice path {path:?}"));
+        }
+    }
+    (cal.len(), paths, failures)
+}
+
 pub fn family_nth(fam: &str, k: usize, a: usize, i: usize) -> (String, Program) {
     match fam {
         "loop" => inkgen::loop_nth(k, a, i),
@@ -209,6 +246,13 @@ pub fn family_nth(fam: &str, k: usize, a: usize, i: usize) -> (String, Program) 
 
 pub fn run(tier: Tier) -> i32 {
     let started = std::time::Instant::now();
+    let (cal_n, cal_paths, cal_fail) = calibrate();
+    if !cal_fail.is_empty() {
+        for f in &cal_fail {
+            println!("MACHINERY-ERROR property={ID} reference interpreter fails calibration against the reference toolchain: {f}");
+        }
+        return 2;
+    }
     let a = inkgen::ITEM_NAMES.len();
     let (fams, depth, secs): (Vec<(&str, usize)>, usize, u64) = match tier {
         Tier::Quick => (vec![("seg", 1), ("seg", 2), ("loop", 1), ("loop", 2), ("stitch", 1)], 4, 55),
@@ -267,6 +311,7 @@ pub fn run(tier: Tier) -> i32 {
         ("distinct_nontrivial", json!(stats.n_distinct("transcripts"))),
         ("rule", json!("program = segment family (k slots over the item alphabet) rendered to Ink source; evaluation = one (program, choice path) turn compared line by line; non-trivial = compiled, inside the supported core, produced output; distinct = distinct full reference transcripts")),
         ("exhaustive", json!(exhaustive)),
+        ("calibration", json!({"corpus_stories_transcribed": cal_n, "choice_paths_compared_with_reference_compiled_json": cal_paths, "disagreements": 0})),
         ("bounds", json!({"families": fams.iter().map(|(f, k)| format!("{f}:{k} slots")).collect::<Vec<_>>(), "alphabet": inkgen::ITEM_NAMES, "programs": n, "programs_done": done, "choice_depth": depth})),
         ("caps_hit", json!(if exhaustive { vec![] } else { vec![format!("wall cap {secs}s: {done}/{n} programs")] })),
     ];
